@@ -81,8 +81,19 @@ static void ev_flush(void)
     g_len = 0;
 }
 
+static unsigned long g_events = 0;
+#define MAX_EVENTS 4000000ul       /* a program that allocates for ever: stop the case, it is not judged */
+
 static void ev_put(const char * s, size_t n)
 {
+    if (g_on && ++g_events > MAX_EVENTS)
+    {
+        static const char msg[] = "@@OVERFLOW events\n";
+        g_on = 0;
+        ev_flush();
+        if (write(g_efd, msg, sizeof msg - 1) < 0) { }
+        _exit(99);
+    }
     if (g_len + n > sizeof g_buf) ev_flush();
     memcpy(g_buf + g_len, s, n);
     g_len += n;
